@@ -117,7 +117,7 @@ type Loaded = BTreeMap<String, Result<Value, String>>;
 enum How { Get, Snapshot }
 
 fn load_aggs<A: Aggregate>(
-    storage: &StorageSystem, ns: &Ident, how: How,
+    storage: &StorageSystem, ns: &Ident, how: How, conv: fn(&A) -> Value,
 ) -> Result<Loaded, String> {
     let store = AggregateStore::<A>::create(storage, ns, false)
         .map_err(|e| format!("open store: {e}"))?;
@@ -128,10 +128,7 @@ fn load_aggs<A: Aggregate>(
                 How::Get => store.get_latest(&handle),
                 How::Snapshot => store.save_snapshot(&handle),
             };
-            agg.map_err(|e| format!("error: {e}")).and_then(|a| {
-                serde_json::to_value(a.as_ref())
-                    .map_err(|e| format!("error: serialize: {e}"))
-            })
+            agg.map_err(|e| format!("error: {e}")).map(|a| conv(a.as_ref()))
         });
         out.insert(handle.to_string(), match res {
             Ok(r) => r,
@@ -141,7 +138,7 @@ fn load_aggs<A: Aggregate>(
     Ok(out)
 }
 
-fn load_wal<T: WalSupport>(
+fn load_wal<T: WalSupport + std::fmt::Debug>(
     storage: &StorageSystem, ns: &Ident, how: How,
 ) -> Result<Loaded, String> {
     let store = WalStore::<T>::create(storage, ns)
@@ -153,10 +150,7 @@ fn load_wal<T: WalSupport>(
                 How::Get => store.get_latest(&handle),
                 How::Snapshot => store.update_snapshot(&handle),
             };
-            v.map_err(|e| format!("error: {e}")).and_then(|a| {
-                serde_json::to_value(a.as_ref())
-                    .map_err(|e| format!("error: serialize: {e}"))
-            })
+            v.map_err(|e| format!("error: {e}")).map(|a| val_dbg(a.as_ref()))
         });
         out.insert(handle.to_string(), match res {
             Ok(r) => r,
@@ -171,18 +165,24 @@ fn load_type(data: &Path, ty: &str, how: How) -> Result<Loaded, String> {
     let storage = StorageSystem::new_disk(data.to_path_buf());
     stage(Some(format!("load:{ty}")));
     let res = catch(|| match ty {
-        "CertAuth" => load_aggs::<CertAuth>(&storage, CASERVER_NS, how),
+        "CertAuth" => load_aggs::<CertAuth>(
+            &storage, CASERVER_NS, how, val_dbg::<CertAuth>),
         "TrustAnchorProxy" => {
-            load_aggs::<TrustAnchorProxy>(&storage, TA_PROXY_SERVER_NS, how)
+            load_aggs::<TrustAnchorProxy>(
+                &storage, TA_PROXY_SERVER_NS, how, val_dbg::<TrustAnchorProxy>)
         }
         "TrustAnchorSigner" => {
-            load_aggs::<TrustAnchorSigner>(&storage, TA_SIGNER_SERVER_NS, how)
+            load_aggs::<TrustAnchorSigner>(
+                &storage, TA_SIGNER_SERVER_NS, how, val_dbg::<TrustAnchorSigner>)
         }
         "RepositoryAccess" => {
-            load_aggs::<RepositoryAccess>(&storage, PUBSERVER_NS, how)
+            load_aggs::<RepositoryAccess>(
+                &storage, PUBSERVER_NS, how, val_dbg::<RepositoryAccess>)
         }
-        "SignerInfo" => load_aggs::<SignerInfo>(&storage, SIGNERS_NS, how),
-        "Properties" => load_aggs::<Properties>(&storage, PROPERTIES_NS, how),
+        "SignerInfo" => load_aggs::<SignerInfo>(
+            &storage, SIGNERS_NS, how, val::<SignerInfo>),
+        "Properties" => load_aggs::<Properties>(
+            &storage, PROPERTIES_NS, how, val_dbg::<Properties>),
         "RepositoryContent" => {
             load_wal::<RepositoryContent>(&storage, PUBSERVER_CONTENT_NS, how)
         }
@@ -530,6 +530,49 @@ fn val<T: serde::Serialize>(t: &T) -> Value {
     serde_json::to_value(t).unwrap_or_else(|e| json!({"unserializable": e.to_string()}))
 }
 
+/// Replaces every RFC 3339 time stamp in a line.
+fn strip_times(line: &str) -> String {
+    let b = line.as_bytes();
+    let mut out = String::with_capacity(line.len());
+    let mut i = 0;
+    let dig = |k: usize| k < b.len() && b[k].is_ascii_digit();
+    while i < b.len() {
+        // dddd-dd-ddTdd:dd:dd
+        if dig(i) && dig(i + 1) && dig(i + 2) && dig(i + 3)
+            && i + 18 < b.len() && b[i + 4] == b'-' && dig(i + 5) && dig(i + 6)
+            && b[i + 7] == b'-' && dig(i + 8) && dig(i + 9)
+            && (b[i + 10] == b'T' || b[i + 10] == b' ')
+            && dig(i + 11) && dig(i + 12) && b[i + 13] == b':'
+        {
+            out.push_str("<t>");
+            i += 19;
+            while i < b.len() && (b[i].is_ascii_digit() || b[i] == b'.'
+                || b[i] == b'Z' || b[i] == b'+' || b[i] == b':')
+            { i += 1 }
+            continue
+        }
+        out.push(b[i] as char);
+        i += 1;
+    }
+    out
+}
+
+/// The serialised state plus a fingerprint of the state that does not go
+/// through the serialiser: the sorted lines of the pretty `Debug` output
+/// (hash-map order does not matter for a sorted multiset of lines; time
+/// stamps are blanked). A field that is left out of the stored form is
+/// invisible in the JSON of BOTH sides; it is not invisible here.
+fn val_dbg<T: serde::Serialize + std::fmt::Debug>(t: &T) -> Value {
+    let mut v = val(t);
+    let mut lines: Vec<String> = format!("{t:#?}").lines()
+        .map(|l| strip_times(l.trim())).collect();
+    lines.sort();
+    if let Value::Object(m) = &mut v {
+        m.insert("__debug_lines".into(), json!(lines));
+    }
+    v
+}
+
 fn res_val<T: serde::Serialize, E: std::fmt::Display>(
     r: Result<T, E>
 ) -> Value {
@@ -833,16 +876,16 @@ impl C06Monitor {
             for ca in w.ca_handles() {
                 if let Ok(c) = w.krill.ca_manager().get_ca(&h(&ca)) {
                     m.insert(("CertAuth".to_string(), ca.clone()),
-                             val(c.as_ref()));
+                             val_dbg(c.as_ref()));
                 }
             }
             if let Ok(p) = w.krill.ca_manager().get_trust_anchor_proxy() {
                 m.insert(("TrustAnchorProxy".into(), "ta".into()),
-                         val(p.as_ref()));
+                         val_dbg(p.as_ref()));
             }
             if let Ok(s) = w.krill.ca_manager().get_trust_anchor_signer() {
                 m.insert(("TrustAnchorSigner".into(), "ta".into()),
-                         val(s.as_ref()));
+                         val_dbg(s.as_ref()));
             }
             m
         });
